@@ -71,7 +71,7 @@ func c15r1(r *R) {
 					continue
 				}
 				last := eg[len(eg)-1]
-				okEdge := last == "-(nil != p0.IsProbeRequest)" || last == "-dyn:p0.IsProbeRequest(p2)"
+				okEdge := last == canonStr("-(nil != p0.IsProbeRequest)") || last == "-dyn:p0.IsProbeRequest(p2)"
 				o.Check(okEdge, "a request is forwarded instead of being answered locally because of the extra condition %s: only `IsProbeRequest == nil` or `!IsProbeRequest(req)` may send a request to the backend", last)
 				for _, g := range eg[:len(eg)-1] {
 					o.Check(g == "+(nil != p0.IsProbeRequest)", "forward edge additionally depends on %s", g)
